@@ -5,8 +5,9 @@ func init() {
 		ID: "C10",
 		Explain: "Decides the default table for every default-bearing optional column, for both ways a value can be missing: OptionalColumn.Read/ReadOr are summarised from their CFG as {column absent, cell blank, value} -> {default argument, cell, \"\"}; for each read of a default-bearing column the cell handed on is composed with the consumer (direct field store, `== const`, or the decoder's extracted decision table) and the resulting field constant is compared with the GTFS default (DESIGN Appendix A.2), for 'absent' and for 'blank'. A decode that runs only under a test of its own column object that is false for an absent column is evaluated as skipped for 'absent': the field then keeps the zero value of its type, which must be the default. " +
 			"Fill-in: under each validity combination of (arrival, departure) the value stored in ArrivalTime/DepartureTime must come from a valid side. Inheritance: stores under the option touch only WheelchairBoarding, guarded by parent present and own value unspecified, and store the parent's value. " +
-			"The inheriting store is reached on every path on which option, parent and own Unspecified hold (no further condition restricts it). Not decided: that the decoders are applied to every row (C01), numeric parsing. The destination field of a default-bearing column is stored from the decoded cell only (a second store from another value would replace the default or the cell). The fill-in is followed into a helper that answers the two times as results or as fields of a small struct, whether it decodes the cells itself or is handed the decoded values with their flags. The time decoder answers not-valid for the empty cell (every valid answer lies behind an emptiness test), which is what the fill-in keys on.",
+			"The inheriting store is reached on every path on which option, parent and own Unspecified hold (no further condition restricts it). Not decided: that the decoders are applied to every row (C01), numeric parsing. The destination field of a default-bearing column is stored from the decoded cell only (a second store from another value would replace the default or the cell). The fill-in is followed into a helper that answers the two times as results or as fields of a small struct, whether it decodes the cells itself or is handed the decoded values with their flags. The time decoder answers not-valid for the empty cell (every valid answer lies behind an emptiness test), which is what the fill-in keys on. Every record read becomes the current row (none skipped for its cells), and the time decoder answers not-valid only on tests of the cell, the current character and the piece index.",
 		Rules: []Rule{
+			{Name: "WARN", Doc: "every record the csv reader yields becomes the current row of the parser (none is skipped for what its cells are: a row whose leading optional cell is blank takes the default, it is not dropped)", MinInstances: 5, Run: runWarningRules},
 			{Name: "DEF", Doc: "blank = absent = GTFS default for every default-bearing column", MinInstances: 14, Run: runDefaults},
 			{Name: "FILL", Doc: "arrival/departure fill-in takes the valid side", MinInstances: 1, Run: runFillIn},
 			{Name: "INH", Doc: "wheelchair inheritance is guarded and touches nothing else", MinInstances: 1, Run: runInheritance},
